@@ -464,7 +464,10 @@ def rule_r3(ctx):
                         loop = getattr(loop, "_parent", None)
                     if loop is None:
                         continue
-                    rng = norm(loop.iter)
+                    it = loop.iter
+                    while isinstance(it, ast.Call) and dotted_of(it.func) in ("reversed", "list", "tuple") and len(it.args) == 1:
+                        it = it.args[0]  # the same indices in another order (whether a rejection can interrupt the loop is C06's question)
+                    rng = norm(it)
                     if rng.startswith("range(") and norm(val.slice.upper) in rng:
                         ln = [n for n in cfg.node_of(loop) if n.kind == "iter"]
                         sn = cfg.node_of(w.stmt)
@@ -920,6 +923,20 @@ def rule_r6(ctx):
                           f"a bookkeeping field ({sorted(set(m.qfields) & set(BOOKKEEPING_Q)) or 'through ' + (m.callee.local if m.callee else '?')}) is written ({m.desc}) and a later point on the same "
                           "path can still reject: " + "; ".join(guards[:3]) + " - after the rejected call the use-def / ownership links are inconsistent",
                           construct=f"{short(m.node)[:70]} => {short(c.node)[:70]}")
+
+
+    # the validations that make a later rejection impossible must still stand in every mutator that writes bookkeeping fields
+    # before it (the C06 table names them; an entry whose validation was weakened no longer discharges anything)
+    for i, ent in enumerate(c06.INFEASIBLE):
+        for need, holders, missing in c06.required_validations(ef, muts, used, i, ent):
+            for f in missing:
+                if not any(set(m.qfields) & set(BOOKKEEPING_Q) or (m.callee is not None and m.callee.key in own) for m, _c in ef.summary(f).dirty):
+                    continue
+                ctx.check("R6", f"{f.local}: validation `{need}` precedes its bookkeeping writes", False, f, f.node,
+                          f"the validation `{need}` is gone from {f.local}, which writes use-def / ownership fields before a point that can still reject "
+                          f"({ent['guard'][:80]}): after the rejected call the values it released or adopted disagree with the lists that hold them",
+                          how="C06 infeasibility table: the dominating validation an entry relies on is searched among the mutator's own rejections",
+                          construct=f"missing validation {need} in {f.local}")
 
 
 _MUT_CTORS = ("list", "dict", "set", "collections.Counter", "Counter", "collections.defaultdict", "defaultdict", "collections.OrderedDict",
